@@ -24,14 +24,19 @@ package store
 //@     invariant forall i int :: right <= i && i < len(idx.Entries) ==> string(path) < string(idx.Entries[i].Path)
 //@     decreases right - left
 
+//@ pred indexPath(root) := pjoin(root, "index")
+
 //@ func Index.write
 //@   returns err
-//@   pure
+//@   modifies fs
 //@   requires wfIndex(idx)
+//@   ensures [only] {C04,C06,C03} sameExcept(fs, old(fs), indexPath(rootGoitPath))
 
 //@ func Index.Update
 //@   returns changed, err
-//@   modifies Index.Entries, Index.Header
+//@   modifies Index.Entries, Index.Header, fs
+//@   ensures [disk-only] {C04,C06,C03} sameExcept(fs, old(fs), indexPath(rootGoitPath))
+//@   ensures [disk-noop] {C04} !changed && err == nil ==> fs == old(fs)
 //@   requires wfIndex(idx)
 //@   requires [pathlen] len(path) <= 65535
 //@   ensures [wf] {C06,C04} wfIndex(idx)
@@ -42,7 +47,9 @@ package store
 
 //@ func Index.DeleteEntry
 //@   returns err
-//@   modifies Index.Entries, Index.Header
+//@   modifies Index.Entries, Index.Header, fs
+//@   ensures [disk-only] {C04,C06,C03} sameExcept(fs, old(fs), indexPath(rootGoitPath))
+//@   ensures [disk-refused] {C04,C18} (forall i int :: 0 <= i && i < len(old(idx.Entries)) ==> string(old(idx.Entries)[i].Path) != string(path)) ==> fs == old(fs)
 //@   requires wfIndex(idx)
 //@   ensures [wf] {C06,C04} wfIndex(idx)
 //@   ensures [refused-unchanged] {C04,C18} (forall i int :: 0 <= i && i < len(old(idx.Entries)) ==> string(old(idx.Entries)[i].Path) != string(path)) ==> err != nil && seqEq(idx.Entries, old(idx.Entries))
@@ -300,3 +307,40 @@ package store
 //@   ensures [disk-only] {C08,C03} sameExcept(fs, old(fs), refPath(rootGoitPath, h.Reference))
 //@   ensures [head-same] {C08} h.Reference == old(h.Reference)
 //@   ensures [wf] wfRefs(refs)
+
+//@ func Index.Reset
+//@   returns err
+//@   modifies Index.Entries, Index.Header, fs, $rdpos, $hashdata, $screst, $sctok
+//@   requires wfIndex(idx)
+//@   requires [hashlen] len(hash) >= 1
+//@   ensures [disk-only] {C08,C03} sameExcept(fs, old(fs), indexPath(rootGoitPath))
+//@   ensures [nonnil] forall i int :: 0 <= i && i < len(idx.Entries) ==> idx.Entries[i] != nil
+//@   ensures [count] int(idx.EntryNum) == len(idx.Entries) || err != nil
+
+//@ func NewIndex
+//@   returns idx, err
+//@   modifies $rdpos, $hashdata
+//@   ensures [result] {C06,C19} err == nil ==> idx != nil && fresh(idx)
+
+//@ func NewRefs
+//@   returns r, err
+//@   ensures [result] {C10,C19} err == nil ==> r != nil && fresh(r)
+
+//@ func NewHead
+//@   returns h, err
+//@   modifies $rdpos, $hashdata, $screst, $sctok
+//@   ensures [result] {C10,C19} err == nil ==> h != nil && fresh(h) && (h.Commit != nil ==> h.Commit.Object != nil && len(h.Commit.Tree) >= 20)
+
+//@ func NewReflog
+//@   returns rl, err
+//@   modifies $screst, $sctok
+//@   requires head != nil && refs != nil && wfRefs(refs)
+//@   ensures [result] {C11,C19} err == nil ==> rl != nil && wfReflog(rl)
+
+//@ func Reflog.load
+//@   returns err
+//@   modifies Reflog.records, $screst, $sctok
+//@   requires head != nil && refs != nil && wfRefs(refs) && wfReflog(r)
+//@   ensures [wf] {C11,C19} wfReflog(r)
+//@   loop 0:
+//@     invariant wfReflog(r)
